@@ -225,7 +225,16 @@ fn disagree(ev: &mut Ev, op: &str, request: &str, src: &str, got: &str, want: &s
     );
 }
 
+/// The decode half only (C18: accept/reject and decoded bytes against the model).
+pub fn part_decode(ev: &mut Ev, model: &mut Model, opts: &Opts) {
+    run(ev, model, opts, false)
+}
+
 pub fn part_strings(ev: &mut Ev, model: &mut Model, opts: &Opts) {
+    run(ev, model, opts, true)
+}
+
+fn run(ev: &mut Ev, model: &mut Model, opts: &Opts, roundtrip: bool) {
     let n = opts.tier.pick(2500u64, 60_000u64);
     for i in 0..n {
         let mut r = Rng::for_case(opts.seed ^ 0xB17, i);
@@ -320,7 +329,7 @@ pub fn part_strings(ev: &mut Ev, model: &mut Model, opts: &Opts) {
             }
         }
         // ---- escape → format → parse round trip ----------------------------------------------
-        {
+        if roundtrip {
             let v = gen_value(&mut r);
             // single-line: build the literal with the model's escape, let the formatter re-render it
             let esc = unhex_s(&model.ask(&format!("escape-single {}", hx(&v))));
